@@ -104,6 +104,8 @@ def burying_prog(rng):
 def make_cases(rng, tier):
     n = 350 if tier == "quick" else 8000
     cases, refusals, problems = [], 0, []
+    fixed_left = list(sp.fixed_window_cases())
+    n += len(fixed_left) * 4 // 3
     for i in range(n):
         if i % 4 == 3:
             p = burying_prog(rng)
@@ -122,7 +124,15 @@ def make_cases(rng, tier):
             cases.append({"json": {"program": jsonable(p), "impl": jsonable(res)}, "coq": f"BCase {mp.cprog(p)} {t}",
                           "nontrivial": True, "key": mp.cprog(p), "kind": "refusal", "checker": "check_build"})
             continue
-        p = ordered_prog(rng)
+        if fixed_left:
+            # the deterministic window sweep, closed by a total sort so that the whole list is determined
+            p = fixed_left.pop()
+            _w0, rel0, _r0 = mp.run_build(p)
+            if rel0 is None:
+                continue
+            p = ("un", ("sort", [(("ref", c), True) for c in sorted(rel0.columns)]), mp.DEFAULT, p)
+        else:
+            p = ordered_prog(rng)
         w, rel, res = mp.run_build(p)
         if rel is None:
             continue
